@@ -136,6 +136,24 @@ def r4c_for_chars(text):
     return "".join(out), n
 
 
+def r5e_for_zip_enumerate(text):
+    """R5e: `for (i, (a, b)) in X.iter().zip(Y).enumerate() {` -> index loop to min len, binding i."""
+    n = 0
+    rx = re.compile(r"for\s+\((?P<i>\w+),\s*\((?P<a>\w+),\s*(?P<b>\w+)\)\)\s+in\s+(?P<x>[A-Za-z_][\w\.]*?)\.iter\(\)\s*\.zip\((?P<y>&?[A-Za-z_][\w\.]*?)(\.iter\(\))?\)\s*\.enumerate\(\)\s*\{")
+    out, pos = [], 0
+    for m in rx.finditer(text):
+        k = _fresh()
+        x, y = m.group("x"), m.group("y").lstrip("&")
+        new = ("let mut %s: usize = 0; while %s < %s.len() && %s < %s.len() { let %s = %s; let %s = &%s[%s]; let %s = &%s[%s]; %s += 1;"
+               % (k, k, x, k, y, m.group("i"), k, m.group("a"), x, k, m.group("b"), y, k, k))
+        out.append(text[pos:m.start()])
+        out.append(_pad(m.group(0), new))
+        pos = m.end()
+        n += 1
+    out.append(text[pos:])
+    return "".join(out), n
+
+
 def r5_for_zip(text):
     """R5: `for (a, b) in X.iter().zip(Y)` / `.zip(Y.iter())` -> index loop to min len."""
     n = 0
@@ -310,6 +328,7 @@ RULES = {
     "R4c": r4c_for_chars,
     "R4e": r4e_for_enumerate,
     "R5": r5_for_zip,
+    "R5e": r5e_for_zip_enumerate,
     "R6": r6_for_rev,
     "R7": r7_for_chain,
     "R8": r8_zip_all,
